@@ -37,10 +37,11 @@ func enumHist(maxLen int, f func(h []int)) {
 }
 
 // Run: sub-command "fence".
-//   seqlen   exhaustive fault-free histories of one branch up to this length
-//   faultlen histories up to this length with a fault at every (delivery, operation index)
-//   nsample  sampled multi-branch histories (random faults, a few invalid phases)
-//   schedbits exhaustive schedule prefixes of this many bits for every (initial status, phase pair)
+//
+//	seqlen   exhaustive fault-free histories of one branch up to this length
+//	faultlen histories up to this length with a fault at every (delivery, operation index)
+//	nsample  sampled multi-branch histories (random faults, a few invalid phases)
+//	schedbits exhaustive schedule prefixes of this many bits for every (initial status, phase pair)
 func Run(args map[string]string) {
 	seed := hutil.ArgU64(args, "seed", 1)
 	seqlen := hutil.ArgInt(args, "seqlen", 6)
